@@ -22,7 +22,8 @@ Verdict(rec) ==
         TabP == [p \in U \X U |-> rec.tabP[p[1]][p[2]]]
         TabB == [p \in U \X U |-> rec.tabB[p[1]][p[2]]]
         Off  == {p \in U \X U : p[1] # p[2]}
-    IN IF ~IsDataset(D) \/ ~Valid(B, T) THEN <<"skip", "input-outside-domain">>
+    IN IF rec.out = "setup-failed" THEN <<"skip", "setup-failed">>
+       ELSE IF ~IsDataset(D) \/ ~Valid(B, T) THEN <<"skip", "input-outside-domain">>
        ELSE IF rec.out # "table" THEN <<"viol", "C02:fails">>
        ELSE IF rec.exact # 1 THEN <<"viol", "C02:inexact">>
        ELSE IF \E p \in Off : TabP[p] # C[p] THEN <<"viol", "C02:entries">>
